@@ -55,6 +55,8 @@ def run(ctx, rep):
         for plan in plans(ctx):
             for _ in range(ctx.n(1, 6)):
                 cases.append((version, plan, rand_state(rng), rng.choice(ids)))
+        for _ in range(ctx.n(4, 40)):
+            cases.append((version, {"extra": "none", "seg": "whole", "gap_ms": 0, "idle_push": rand_state(rng)}, rand_state(rng), 123456))
         base = {"extra": "none", "seg": "whole", "gap_ms": 0}
         for tgt in (26, 27, 32, 33, 61, 62, 63, 86, 87):
             s = rand_state(rng); s["target"] = tgt
@@ -73,8 +75,8 @@ def run(ctx, rep):
         obs = E.run_case(ctx.model, rng, version, plan, want, device_id=did)
         if obs.get("control_packet_v2"):
             wire.append((want, did, obs))
-        key = (version, tuple(sorted(plan.items())), tuple(want[k] for k in SETTABLE))
-        rep.case(key, f"v{version}-{plan['seg']}-{plan['extra']}")
+        key = (version, tuple(sorted((k, str(v)) for k, v in plan.items())), tuple(want[k] for k in SETTABLE))
+        rep.case(key, f"v{version}-{plan['seg']}-{plan['extra']}" + ("-idlepush" if plan.get("idle_push") else ""))
         inp = {"version": version, "plan": plan, "state": want, "device_id": did}
         k2 = is_k2(version, plan)
         want_vec = [want[k] for k in SETTABLE]
@@ -93,11 +95,21 @@ def run(ctx, rep):
             continue
         for who in ("same_client_after_refresh", "fresh_client_after_refresh"):
             if obs[who] != obs["expected_view"]:
-                stale = plan["extra"] != "none" and obs[who] in obs["earlier_views"]
+                # K3 = the exchange returned NO report of the current state (the reply proper is still under way) and what the
+                # client shows is an earlier state of the appliance; a current report that was handed over but overridden is not K3
+                got_current = obs["same_client_got_current_report"] if who.startswith("same") else True
+                stale = plan["extra"] != "none" and obs[who] in obs["earlier_views"] and not got_current
                 rep.fail("oracle", k2 or ("stale-report-taken-as-reply" if stale else "refresh-differs-from-device"), inp,
                          {"client": who, "read": obs[who], "reference_reading_of_device_state": obs["expected_view"],
                           "failure": "refresh-differs-from-device", "is_an_earlier_state_of_the_device": stale})
                 break
+        ip = obs.get("idle_push")
+        if ip and ip["read"] != ip["expected"]:
+            stale = ip["read"] in obs["earlier_views"] and not ip["got_current_report"]
+            rep.fail("oracle", k2 or ("stale-report-taken-as-reply" if stale else "refresh-differs-from-device"), inp,
+                     {"phase": "unsolicited report while idle, state changed by another client, refresh", "read": ip["read"],
+                      "reference_reading_of_device_state": ip["expected"], "exchange_returned_a_current_report": ip["got_current_report"],
+                      "failure": "refresh-differs-from-device"})
         if obs["rejected_frames"]:
             fail("frame-rejected-by-reference-parser", {"count": obs["rejected_frames"]})
     rep.sample({"version": cases[0][0], "plan": cases[0][1], "state": cases[0][2]})
